@@ -18,7 +18,10 @@
        "none"  : never                                   (negative instance)
    Property C18: device cells = the documented blend / material (DeviceCells, Range, DiscreteExact); cells
    outside all devices never change (OutsideUnchanged); after any sequence of parameter sets the arrays
-   are what applying only the last set to the placed scene gives (HistoryIndependent).                 *)
+   are what applying only the last set to the placed scene gives (HistoryIndependent).  In a dispersive
+   simulation EVERY device also writes the dispersion coefficients of its cells (DispCells: those of the selected
+   material, zero for a plain one; DispOutsideUnchanged); CONSTANT DispWrite = "own" (only devices that have a
+   dispersive material write them) is a negative instance: stale background poles survive under a plain device. *)
 EXTENDS ApplyParamsDefs
 
 CONSTANTS N,          \* cells
@@ -27,10 +30,13 @@ CONSTANTS N,          \* cells
           PVals,      \* doubled parameter values for continuous / etched devices (subset of {0, 1, 2})
           MaxHist,    \* parameter sets per behaviour
           Backup,     \* "any" | "all" | "none"
-          Scenes      \* subset of {"single", "pair"}
+          Scenes,     \* subset of {"single", "pair", "disp"}
+          DispWrite   \* "every" (code) | "own" (negative instance): which devices write dispersion coefficients
 
-VARIABLES base, devs, cur, hlen, last
-vars == << base, devs, cur, hlen, last >>
+VARIABLES base, devs, cur, hlen, last,
+          bcoef,      \* abstract dispersion coefficient of every cell after placement (0 = non-dispersive)
+          dcur        \* DOUBLED coefficient of every cell now (dispersive_c1..c4 of the arrays)
+vars == << base, devs, cur, hlen, last, bcoef, dcur >>
 
 Placements == { << 1, 3, 1 >>, << 0, N, 2 >>, << 1, 3, 2 >>, << 0, 2, 1 >> }     \* <<lo, hi, vox>>
 MaterialLists ==
@@ -38,7 +44,14 @@ MaterialLists ==
       etched     |-> { << Iso(a) >> : a \in MatEps },
       discrete   |-> { << Iso(a), Iso(b) >> : a, b \in MatEps } \cup { << Iso(a), Iso(b), Iso(c) >> : a, b, c \in MatEps } ]
 Ascending(ms) == \A k \in 1..(Len(ms) - 1) : ms[k][1] < ms[k + 1][1]
-Dev(pl, kind, ms) == [ lo |-> pl[1], hi |-> pl[2], vox |-> pl[3], kind |-> kind, mats |-> ms ]
+Dev(pl, kind, ms) == [ lo |-> pl[1], hi |-> pl[2], vox |-> pl[3], kind |-> kind, mats |-> ms, coefs |-> [ m \in 1..Len(ms) |-> 0 ] ]
+\* dispersive simulations: one continuous or discrete device whose materials are plain (coefficient 0) or carry a
+\* pole (5, 7), on a background whose cells are plain (0) or carry the pole 9
+CoefLists(n) == IF n = 2 THEN { << 0, 0 >>, << 0, 5 >>, << 7, 0 >> } ELSE { << 0, 0, 0 >>, << 0, 5, 7 >> }
+DispCandidates == { << [ Dev(pl, kind, ms) EXCEPT !.coefs = cf ] >> :
+                      pl \in { << 1, 3, 1 >>, << 0, N, 2 >> }, kind \in {"continuous", "discrete"},
+                      ms \in { << Iso(1), Iso(4) >>, << Iso(1), Iso(2), Iso(4) >> }, cf \in CoefLists(2) \cup CoefLists(3) }
+DispScenes == { sc \in DispCandidates : Len(sc[1].coefs) = Len(sc[1].mats) /\ (sc[1].kind = "continuous" => Len(sc[1].mats) = 2) }
 
 \* two devices, one etched and one plain (continuous), in both list orders:
 \* disjoint (one voxel each; two voxels + one voxel) and overlapping in cell 2
@@ -56,7 +69,10 @@ PairScenes ==
 
 Init == /\ base \in [ 1..N -> { Iso(e) : e \in BaseEps } ]
         /\ devs \in (IF "single" \in Scenes THEN SingleScenes ELSE {}) \cup (IF "pair" \in Scenes THEN PairScenes ELSE {})
+                     \cup (IF "disp" \in Scenes THEN DispScenes ELSE {})
+        /\ bcoef \in (IF "disp" \in Scenes THEN [ 1..N -> {0, 9} ] ELSE { [ c \in 1..N |-> 0 ] })
         /\ cur = [ c \in 1..N |-> Dbl(base[c]) ]
+        /\ dcur = [ c \in 1..N |-> 2 * bcoef[c] ]
         /\ hlen = 0 /\ last = << >>
 
 \* an etched device that comes after an overlapping plain one blends with that device's output; to keep the
@@ -76,8 +92,9 @@ Apply(ps) ==
     /\ hlen < MaxHist
     /\ LET start == IF HasBackup THEN [ c \in 1..N |-> Dbl(base[c]) ] ELSE cur
        IN  cur' = WriteAll(start, devs, ps, 1)
+    /\ dcur' = WriteAllCoef(dcur, devs, ps, 1, DispWrite)        \* the coefficient arrays have no backup
     /\ hlen' = hlen + 1 /\ last' = ps
-    /\ UNCHANGED << base, devs >>
+    /\ UNCHANGED << base, devs, bcoef >>
 
 Next == (\E ps \in ParamSets : Apply(ps)) \/ (hlen = MaxHist /\ UNCHANGED vars)
 Spec == Init /\ [][Next]_vars
@@ -99,14 +116,23 @@ DiscreteExact == hlen > 0 =>
     \A k \in 1..Len(devs) : devs[k].kind = "discrete" =>
         \A c \in devs[k].lo..(devs[k].hi - 1) : \E m \in 1..Len(devs[k].mats) : cur[c + 1] = Dbl(devs[k].mats[m])
 OutsideUnchanged == \A c \in 0..(N - 1) : ~InAnyDevice(devs, c) => cur[c + 1] = Dbl(base[c + 1])
-HistoryIndependent == hlen > 0 => cur = After(base, devs, last)
+HistoryIndependent == hlen > 0 => cur = After(base, devs, last) /\ dcur = AfterCoef(bcoef, devs, last)
+\* every device cell carries the coefficients of the selected material (zero for a plain one) / the blend
+DispCells == hlen > 0 =>
+    \A k \in 1..Len(devs) : \A c \in devs[k].lo..(devs[k].hi - 1) :
+        (InOneDevice(devs, c) /\ devs[k].kind # "etched") =>
+            dcur[c + 1] = (IF devs[k].kind = "discrete" THEN 2 * devs[k].coefs[last[k][VoxelOf(devs[k], c)] + 1]
+                           ELSE 2 * devs[k].coefs[1] + last[k][VoxelOf(devs[k], c)] * (devs[k].coefs[2] - devs[k].coefs[1]))
+DispOutsideUnchanged == \A c \in 0..(N - 1) : ~InAnyDevice(devs, c) => dcur[c + 1] = 2 * bcoef[c + 1]
 
 \* ---------------------------------- bounded instances ----------------------------------
+One    == {1}
 Eps14  == {1, 4}
 Eps124 == {1, 2, 4}
 P012   == {0, 1, 2}
 P02    == {0, 2}
 Single == {"single"}
 Pair   == {"pair"}
-Both   == {"single", "pair"}
+Both   == {"single", "pair", "disp"}
+Disp   == {"disp"}
 =======================================================================
